@@ -2791,6 +2791,9 @@ def allclose_units(actual, desired, rtol=1e-7, atol=0, **kwargs):
     act = unyt_array(actual)
     des = unyt_array(desired)
 
+    # a bare atol is in the units of ``desired`` as given, not as converted below
+    desired_units = des.units
+
     try:
         des = des.in_units(act.units)
     except (UnitOperationError, UnitConversionError):
@@ -2801,7 +2804,9 @@ def allclose_units(actual, desired, rtol=1e-7, atol=0, **kwargs):
         raise RuntimeError(f"Units of rtol ({rt.units}) are not dimensionless")
 
     if not isinstance(atol, unyt_array):
-        at = unyt_quantity(atol, des.units)
+        # a tolerance is a difference: only the scale of the unit applies to it
+        factor, _ = desired_units.get_conversion_factor(act.units)
+        at = unyt_quantity(atol * factor, act.units)
     else:
         at = atol
 
